@@ -175,8 +175,53 @@ def body(cfg, rec):
     rec.nt(True)
 
 
-PARTS = {"sites": body}
+# ------------------------------------------------------------------ calibration: fault at evaluation k
+def cal_site_cases():
+    out = []
+    for exc in ("ValueError", "ProbeError", "TwoArgError", "ZeroDivisionError"):
+        for k in (0, 1, 7, 8, 11, 17):  # population 8: calls 0..7 = initial population, 8.. = evolution phase
+            out.append({"call": k, "exc": exc, "islands": 1 if k % 2 else 2})
+    return out
+
+
+def body_cal(case, rec):
+    import numpy as np
+
+    from vprobes import models as P
+
+    P.reset()
+    rec.nt(case["call"] > 0)
+    rec.cls("calibration:" + ("initial_population" if case["call"] < 8 else "evolution"), f"exc:{case['exc']}")
+    token = f"CALTOKEN-{case['call']}-Zq7"
+    np.save(rec.tmp / "target.npy", np.zeros((2, 2)))
+    pipe = {"groups": {"charge_collection": [{"name": "boom", "func": "vprobes.models.fault_at_call", "enabled": True,
+                                              "arguments": {"n": case["call"], "token": token, "exc": case["exc"], "tag": "boom"}}]}, "yaml_perm": 0}
+    spec = {"detector": simple_spec("CCD", row=2, col=2), "pipeline": pipe,
+            "mode": {"kind": "calibration", "target_data_path": [str(rec.tmp / "target.npy")],
+                     "fitness_function": {"func": "pyxel.calibration.fitness.sum_of_abs_residuals"},
+                     "algorithm": {"type": "sade", "generations": 2, "population_size": 8},
+                     "parameters": [{"key": "detector.environment.temperature", "values": "_", "boundaries": [100.0, 200.0]}],
+                     "result_type": "pixel", "target_fit_range": [0, 2, 0, 2], "result_fit_range": [0, 2, 0, 2], "pygmo_seed": 5,
+                     "num_islands": case["islands"], "num_evolutions": 2}}
+    result, raised = None, None
+    try:
+        result = pyx.run(pyx.build(spec), with_inherited_coords=True)
+    except Exception as exc:  # noqa: BLE001
+        raised = exc
+    n_calls = len([r for r in P.TRACE if r.get("kind") == "fault_call"])
+    if n_calls <= case["call"]:
+        rec.exclude("fault_site_not_reached")
+        return
+    if not rec.check(raised is not None, "failure_not_propagated", f"calibration with a fault at evaluation {case['call']} returned {type(result).__name__}"):
+        return
+    text = exc_chain_text(raised)
+    rec.check(token in text, "original_message_lost", f"evaluation {case['call']}: {text[:300]}")
+    rec.check("charge_collection" in text and "boom" in text, "group_or_model_not_named", f"evaluation {case['call']}: {text[:300]}")
+
+
+PARTS = {"sites": body, "calibration_sites": body_cal}
 
 
 def plan(tier):
-    return [Part(name="sites", kind="gen", strategy=configs, examples=25 if tier == "quick" else 150)]
+    return [Part(name="sites", kind="gen", strategy=configs, examples=25 if tier == "quick" else 150),
+            Part(name="calibration_sites", kind="enum", cases=cal_site_cases, exhaustive=False)]
